@@ -114,6 +114,8 @@ FAULTS = {
     "and-without-predecessor": ["And orphan", "  But orphan"],
     "ragged-table-row": ["| 1 | 2 | 3 | 4 | 5 |", "  | 1 | 2 | 3 | 4 | 5 |"],
     "bad-tag-token": ["@ok bad-token", "  @ok bad"],
+    # inside a doc-string: a line indented less than the opening delimiter
+    "underindented-docstring-line": ["text at column 0", " one blank only"],
 }
 
 
@@ -144,6 +146,8 @@ def _contexts(rlines):
 
 
 def _is_fault(kind, c, has_bg):
+    if kind == "underindented-docstring-line":
+        return c["in_doc"]
     if c["in_doc"]:
         return False
     prev, stmt = c["prev"], c["stmt"]
@@ -189,7 +193,7 @@ def h_inject(sx):
         return {"fault": kind, "injected_at_line": idx + 1, "context": ctx[idx],
                 "doc": [sx.eval(l, m) if m is not None else l for l in lines]}
     try:
-        parser.parse_feature(text, filename="inj.feature")
+        parser.parse_feature(text, filename="inj.feature" if sx.bool("with_filename") else None)
         sx.check(False, "C05.injected-fault-is-reported", detail=det)
         return ["accepted", idx]
     except parser.ParserError as e:
@@ -211,6 +215,8 @@ def jobs(tier, seed):       # noqa: F811
     for t in trees:
         for f in FAULTS:
             if f == "ragged-table-row" and t not in ("outline", "mixed", "o-rule"):
+                continue
+            if f == "underindented-docstring-line" and t != "outline":
                 continue
             for fillers in ((0,) if tier == "quick" else (0, 1)):
                 js.append(Job("inject.%s.%s.f%d" % (t, f, fillers), "props.c05:h_inject", {"tree": t, "fault": f, "fillers": fillers},
